@@ -71,7 +71,9 @@ pub fn run(c: &Campaign, st: &mut Stats) -> Result<Vec<Found>, String> {
             .arg(format!("-artifact_prefix={}/w{}-", arts.display(), w))
             .current_dir(&dir)
             .stdout(std::process::Stdio::null())
-            .stderr(std::process::Stdio::piped());
+            // into a file, not a pipe: the workers are reaped one after the other, and a worker whose pipe is full
+            // would sleep until its turn comes (which serialises the campaign)
+            .stderr(std::fs::File::create(dir.join(format!("w{}.log", w))).map_err(|e| e.to_string())?);
         unsafe {
             use std::os::unix::process::CommandExt;
             cmd.pre_exec(|| {
@@ -86,9 +88,10 @@ pub fn run(c: &Campaign, st: &mut Stats) -> Result<Vec<Found>, String> {
     }
     let mut total_runs = 0u64;
     let mut max_cov = 0u64;
-    for ch in children {
-        let out = ch.wait_with_output().map_err(|e| e.to_string())?;
-        let err = String::from_utf8_lossy(&out.stderr);
+    for (w, mut ch) in children.into_iter().enumerate() {
+        ch.wait().map_err(|e| e.to_string())?;
+        let raw = std::fs::read(dir.join(format!("w{}.log", w))).unwrap_or_default();
+        let err = String::from_utf8_lossy(&raw);
         for l in err.lines() {
             if let Some(r) = l.strip_prefix("stat::number_of_executed_units:") {
                 total_runs += r.trim().parse::<u64>().unwrap_or(0);
